@@ -33,6 +33,10 @@ theorem VKey.lt_trans {x y z : VKey} (h1 : VKey.lt x y = true) (h2 : VKey.lt y z
   · rename_i a i b j c k
     cases a <;> cases b <;> cases c <;> simp_all <;> omega
   · omega
+  · exact strLt_trans h1 h2
+  · rename_i a i b j c k
+    cases a <;> cases b <;> cases c <;> simp_all <;> omega
+  · omega
 
 theorem VKey.lt_total {x y : VKey} (hc : x.cls = y.cls) (h1 : VKey.lt x y = false) (h2 : VKey.lt y x = false) :
     x = y := by
@@ -47,6 +51,15 @@ theorem VKey.lt_total {x y : VKey} (hc : x.cls = y.cls) (h1 : VKey.lt x y = fals
   · rename_i a i b j
     cases a <;> cases b <;> simp_all <;> omega
   · omega
+  · rename_i s t
+    by_cases e : s = t
+    · exact e
+    · rcases strLt_connected e with h | h
+      · rw [h1] at h; cases h
+      · rw [h2] at h; cases h
+  · rename_i a i b j
+    cases a <;> cases b <;> simp_all <;> omega
+  · omega
 
 theorem VKey.lt_asymm {x y : VKey} (h : VKey.lt x y = true) : VKey.lt y x = false := by
   cases hyx : VKey.lt y x with
@@ -54,11 +67,9 @@ theorem VKey.lt_asymm {x y : VKey} (h : VKey.lt x y = true) : VKey.lt y x = fals
   | true => have := VKey.lt_trans h hyx; rw [VKey.lt_irrefl] at this; cases this
 
 theorem VKey.clash_symm (x y : VKey) : VKey.clash x y = VKey.clash y x := by
-  cases x <;> cases y <;> simp [VKey.clash]
-  rename_i a _ b _
-  cases a <;> cases b <;> rfl
+  cases x <;> cases y <;> simp [VKey.clash] <;> (rename_i a _ b _; cases a <;> cases b <;> rfl)
 
-theorem VKey.clash_cls {x y : VKey} (h : x.cls ≠ 2) : VKey.clash x y = false := by
+theorem VKey.clash_cls {x y : VKey} (h : x.cls ≠ 2) (h5 : x.cls ≠ 5) : VKey.clash x y = false := by
   cases x <;> cases y <;> simp_all [VKey.clash, VKey.cls]
 
 theorem VKey.clash_self (x : VKey) : VKey.clash x x = false := by
@@ -66,8 +77,7 @@ theorem VKey.clash_self (x : VKey) : VKey.clash x x = false := by
 
 theorem PyVal.key?_cls {u : PyVal} {k : VKey} (h : u.key? = some k) : u.cls = k.cls := by
   cases u <;> simp [PyVal.key?] at h <;> try (subst h; rfl)
-  rename_i w o
-  cases o <;> simp [PyVal.key?] at h <;> subst h <;> rfl
+  all_goals (rename_i w o; cases o <;> simp [PyVal.key?] at h <;> subst h <;> rfl)
 
 theorem FKey.lt_irrefl (k : FKey) : FKey.lt k k = false := by
   cases k <;> simp [FKey.lt, VKey.lt_irrefl, strLt_irrefl]
@@ -110,18 +120,29 @@ theorem FKey.le_trans (F : Fam) {x y z : FKey} (hx : F.keyOK x = true) (hy : F.k
 
 /-! ### values -/
 
-theorem PyVal.gt_self (u : PyVal) : PyVal.gt u u = some false := by
-  simp only [PyVal.gt, ne_eq, not_true_eq_false, if_false]
-  cases h : u.key? with
-  | none => rfl
-  | some k => simp [VKey.clash_self, VKey.lt_irrefl]
+theorem PyVal.gt_self (u : PyVal) : PyVal.gt u u ≠ some true := by
+  simp only [PyVal.gt, ne_eq, not_true_eq_false, if_false, Bool.or_self]
+  cases u.noOrder with
+  | true => simp
+  | false =>
+    simp only [Bool.false_eq_true, if_false]
+    cases h : u.key? with
+    | none => simp
+    | some k => simp [VKey.clash_self, VKey.lt_irrefl]
+
+theorem PyVal.noOrder_cls {u : PyVal} (h : u.cls ≠ 6) : u.noOrder = false := by
+  cases u <;> simp_all [PyVal.noOrder, PyVal.cls]
 
 /-- `>` on values is asymmetric, and it raises in one direction iff it raises in the other -/
 theorem PyVal.gt_asymm (u v : PyVal) :
     (PyVal.gt u v = none ↔ PyVal.gt v u = none) ∧ (PyVal.gt u v = some true → PyVal.gt v u = some false) := by
   simp only [PyVal.gt]
   by_cases hc : u.cls = v.cls
-  · simp only [hc, ne_eq, not_true_eq_false, if_false]
+  · simp only [hc, ne_eq, not_true_eq_false, if_false, Bool.or_comm v.noOrder u.noOrder]
+    cases hno : (u.noOrder || v.noOrder) with
+    | true => simp
+    | false =>
+    simp only [Bool.false_eq_true, if_false]
     cases hu : u.key? with
     | none => cases hv : v.key? <;> simp
     | some k =>
@@ -246,6 +267,7 @@ theorem litGtV_irrefl (a : VLit) : litGtV a a = false := by
 /-! ### the operators on a family are the order of the keys -/
 
 theorem casts_datetime : Tables.castsDatetime = true := by decide
+theorem casts_time : Tables.castsTime = true := by decide
 
 theorem not_numeric_cdt {a : VLit} {d : Str} (hd : Tables.numericTypes.contains d = false) (h : a.cdt = d) :
     isNumericDt a.dt = false := by
@@ -285,7 +307,7 @@ theorem mem_keyOK {F : Fam} {a : VLit} (h : F.mem a = true) : F.keyOK a.fkey = t
     | some k => simpa [hkk, Fam.keyOK] using hk
   | valued d lg c =>
     simp only [Fam.mem, Bool.and_eq_true] at h
-    obtain ⟨⟨_, hk⟩, _⟩ := h
+    obtain ⟨⟨⟨_, hk⟩, _⟩, _⟩ := h
     simp only [VLit.fkey]
     cases hkk : a.key? with
     | none => simp [hkk] at hk
@@ -325,9 +347,11 @@ theorem fam_gt_eq (F : Fam) {a b : VLit} (ha : F.mem a = true) (hb : F.mem b = t
             have hf : fastOK a b = true := by simp [fastOK, hda, hdb, hia, hib, hva, hvb]
             have hcu : u.cls = 1 := (PyVal.key?_cls hkka).trans hka
             have hcv : v.cls = 1 := (PyVal.key?_cls hkkb).trans hkb
-            have hcl : VKey.clash k k' = false := VKey.clash_cls (by rw [hka]; decide)
+            have hcl : VKey.clash k k' = false := VKey.clash_cls (by rw [hka]; decide) (by rw [hka]; decide)
+            have hnu : u.noOrder = false := PyVal.noOrder_cls (by rw [hcu]; decide)
+            have hnv : v.noOrder = false := PyVal.noOrder_cls (by rw [hcv]; decide)
             have hgt : PyVal.gt u v = some (VKey.lt k' k) := by
-              simp [PyVal.gt, hcu, hcv, hkka, hkkb, hcl]
+              simp [PyVal.gt, hcu, hcv, hkka, hkkb, hcl, hnu, hnv]
             have hfa : a.fkey = .v k := by simp [VLit.fkey, VLit.key?, hva, hkka]
             have hfb : b.fkey = .v k' := by simp [VLit.fkey, VLit.key?, hvb, hkkb]
             refine ⟨?_, ?_⟩
@@ -335,8 +359,8 @@ theorem fam_gt_eq (F : Fam) {a b : VLit} (ha : F.mem a = true) (hb : F.mem b = t
             · simp [litEqV, hf, hva, hvb, PyVal.eq, hkka, hkkb, hfa, hfb]
   | valued d lg c =>
     simp only [Fam.mem, Bool.and_eq_true, Bool.not_eq_true', beq_iff_eq, Bool.or_eq_true, bne_iff_ne, ne_eq] at ha hb
-    obtain ⟨⟨⟨⟨hd, hca⟩, hla⟩, hka⟩, hsa⟩ := ha
-    obtain ⟨⟨⟨⟨_, hcb⟩, hlb⟩, hkb⟩, hsb⟩ := hb
+    obtain ⟨⟨⟨⟨⟨hd, hca⟩, hla⟩, hka⟩, hoa⟩, hsa⟩ := ha
+    obtain ⟨⟨⟨⟨⟨_, hcb⟩, hlb⟩, hkb⟩, hob⟩, hsb⟩ := hb
     cases hkka : a.key? with
     | none => simp [hkka] at hka
     | some k =>
@@ -352,6 +376,8 @@ theorem fam_gt_eq (F : Fam) {a b : VLit} (ha : F.mem a = true) (hb : F.mem b = t
           | none => simp [hvb] at hkkb
           | some v =>
             simp only [hva, hvb, Option.bind_some] at hkka hkkb
+            have hnu : u.noOrder = false := by simpa [hva] using hoa
+            have hnv : v.noOrder = false := by simpa [hvb] using hob
             have hna : isNumericDt a.dt = false := not_numeric_cdt hd hca
             have hf : fastOK a b = false := by simp [fastOK, hna]
             have hcu : u.cls = c := (PyVal.key?_cls hkka).trans hka
@@ -360,12 +386,15 @@ theorem fam_gt_eq (F : Fam) {a b : VLit} (ha : F.mem a = true) (hb : F.mem b = t
             have hfb : b.fkey = .v k' := by simp [VLit.fkey, VLit.key?, hvb, hkkb]
             have hgg : gtGeneral a b = VKey.lt k' k := by
               simp only [gtGeneral, hca, hcb, hla, hlb, ne_eq, not_true_eq_false, if_false, hva, hvb]
-              by_cases h2 : c = 2
-              · have : usesCaster u v = true := by simp [usesCaster, casts_datetime, hcu, hcv, h2]
+              by_cases h2 : c = 2 ∨ c = 5
+              · have : usesCaster u v = true := by
+                  rcases h2 with h2 | h2 <;> simp [usesCaster, casts_datetime, casts_time, hcu, hcv, h2]
                 simp [this, castGt, hkka, hkkb]
-              · have : usesCaster u v = false := by simp [usesCaster, hcu, h2]
-                have hcl : VKey.clash k k' = false := VKey.clash_cls (by rw [hka]; exact h2)
-                simp [this, PyVal.gt, hcu, hcv, hkka, hkkb, hcl]
+              · have h2' : c ≠ 2 := fun e => h2 (Or.inl e)
+                have h5' : c ≠ 5 := fun e => h2 (Or.inr e)
+                have : usesCaster u v = false := by simp [usesCaster, hcu, h2', h5']
+                have hcl : VKey.clash k k' = false := VKey.clash_cls (by rw [hka]; exact h2') (by rw [hka]; exact h5')
+                simp [this, PyVal.gt, hcu, hcv, hkka, hkkb, hcl, hnu, hnv]
             refine ⟨?_, ?_⟩
             · simp [litGtV, hf, hgg, hfa, hfb, FKey.lt]
             · simp only [litEqV, hf, hla, hlb, ne_eq, not_true_eq_false, if_false, hca, hcb, and_self, hva, hvb,
